@@ -28,6 +28,9 @@ func init() {
 				Rule: "over (published N ? lock N) x (hash = / !=): '>' and ('=' with different hash) cannot reach success; '=' with equal hash reaches success without staging; '<' reaches success (through staging, C03.d)", Run: c06d},
 			{ID: "C06.e", Title: "OPEN-CHECKPOINT", Template: "T2+T6", MinInst: 6,
 				Rule: "openCheckpoint's success is dominated by note.Open success with the verifier of (config.Name, config.Key.Public()), the RFC 6962 signature found, origin equality, empty extension and the parsed checkpoint being the note's text", Run: c06e},
+			{ID: "C06.g", Title: "LOCK-CAS", Template: "T5+T8", MinInst: 10,
+				Rule: "every lock backend's Replace/Create carries its precondition and a failed conditional write is an error (as C05.b, C05.g): at most one instance can extend a given checkpoint",
+				Run:  func(c *Ctx) { c05b(c); c05g(c) }},
 			{ID: "C06.f", Title: "ONE-LOCK", Template: "T6", MinInst: 2,
 				Rule: "in cmd/sunlight every ctlog.Config and the witness Config receive the one lock backend variable, which is assigned only from the three constructors", Run: c06f},
 		},
